@@ -263,6 +263,19 @@ def bandVerdicts (args : List String) (res : Option (List String)) : List (Strin
                if (u.splitOn ":")[0]? == (d.splitOn ":")[0]? then []
                else [("C12", "rx1-channel-and-rx1-frequency-denote-different-downlink-channels"), ("C15", "rx1-channel-and-rx1-frequency-denote-different-downlink-channels")]
              | _, _ => [])
+          | "chanmac" =>
+            -- a channel the band reports whose frequency lies on the grid the specification gives NewChannelReq (100 Hz below
+            -- 2.4 GHz, 200 Hz from there on) and whose data-rates fit their 4-bit fields is carried by that command unchanged
+            (match out with
+             | [hd, "enc=1", "rt=1"] => let _ := hd; []
+             | hd :: tl =>
+               if tl == ["na"] || tl == [] then [] else
+               (match (hd.splitOn ":").map String.toNat? with
+                | [some f, some mn, some mx] =>
+                  if f < 4294967296 && (Spec.freqCodeNC (BitVec.ofNat 32 f)).isSome && mn < 16 && mx < 16
+                  then [("C15", "reported-channel-not-carried-by-newchannelreq")] else []
+                | _ => [])
+             | _ => [])
           | "idx" =>
             (match (rest[0]?).bind String.toNat?, ai 1, out with
              | some f, some d, [r] =>
